@@ -221,7 +221,7 @@ Print Assumptions C18_grid_table_roundtrip_meshgrid.
 
 Theorem C18_meshgrid_to_from_1d : forall (V : Type) (close : V -> V -> bool)
     (e n : list V) extras,
-  (forall x, close x x = true) -> e <> [] -> n <> [] ->
+  (forall x, In x e \/ In x n -> close x x = true) -> e <> [] -> n <> [] ->
   forallb (rect (length n) (length e)) extras = true ->
   meshgrid_from_1d e n extras = Some (mesh_e e n, mesh_n e n) /\
   meshgrid_to_1d close (mesh_e e n) (mesh_n e n) extras = Some (e, n).
@@ -237,8 +237,7 @@ Proof. exact meshgrid_from_to_1d. Qed.
 Print Assumptions C18_meshgrid_from_to_1d.
 
 Theorem C18_meshgrid_inverse : forall (V : Type) (close : V -> V -> bool) (extras : list (arr2 V)),
-  (forall x, close x x = true) ->
-  (forall e n : list V, e <> [] -> n <> [] ->
+  (forall e n : list V, (forall x, In x e \/ In x n -> close x x = true) -> e <> [] -> n <> [] ->
      forallb (rect (length n) (length e)) extras = true ->
      exists E N, meshgrid_from_1d e n extras = Some (E, N) /\
                  meshgrid_to_1d close E N extras = Some (e, n)) /\
@@ -289,6 +288,22 @@ Print Assumptions C18_dclose_is_allclose.
 Theorem C18_dclose_refl : forall x : D, dclose x x = true.
 Proof. exact dclose_refl. Qed.
 Print Assumptions C18_dclose_refl.
+
+(** array entries in the case files are [option D], [None] being NaN:
+    equality is positional (NaN matches NaN), closeness is false on NaN and
+    reflexive on finite values *)
+Theorem C18_odeqb_is_equality : forall a b : OD, odeqb a b = true <-> a = b.
+Proof. exact odeqb_spec. Qed.
+Print Assumptions C18_odeqb_is_equality.
+
+Theorem C18_oclose_is_allclose : forall a b : OD,
+  oclose a b = true <-> exists x y, a = Some x /\ b = Some y /\ dclose x y = true.
+Proof. exact oclose_spec. Qed.
+Print Assumptions C18_oclose_is_allclose.
+
+Theorem C18_oclose_refl_finite : forall x : D, oclose (Some x) (Some x) = true.
+Proof. exact oclose_refl_finite. Qed.
+Print Assumptions C18_oclose_refl_finite.
 
 (** ** Non-vacuity *)
 Open Scope string_scope.
